@@ -120,7 +120,8 @@ class KrausChannel(raw_types.Gate):
     def __repr__(self):
         args = ['kraus_ops=[' + ', '.join(proper_repr(op) for op in self._kraus_ops) + ']']
         if self._key is not None:
-            args.append(f'key=\'{self._key}\'')
+            key = self._key if self._key.path else str(self._key)
+            args.append(f'key={key!r}')
         return f'cirq.KrausChannel({", ".join(args)})'
 
     def _json_dict_(self) -> dict[str, Any]:
